@@ -7,6 +7,7 @@ import ApolloModel.Proofs.ParserExactS14
 import ApolloModel.Proofs.ParserExactT11
 import ApolloModel.Proofs.ParserExactT13
 import ApolloModel.Proofs.ParserExactS16
+import ApolloModel.Proofs.ParserExactC29
 import ApolloModel.Proofs.ParserDef19
 import ApolloModel.Proofs.ParserTermination8
 import ApolloModel.Proofs.ParserDoc5
@@ -1082,6 +1083,69 @@ theorem document_accept_sandwich_exact (rl : Nat) (src : Parse.Str) :
         ts.map astOfV = (docToks its).map some ∧ its ≠ [] ∧ (∀ i ∈ its, Parse.Exact.itemFit rl i) ∧ Parse.Exact.DocFollowOk its) →
       (parse .document none rl src).errors = []) :=
   Parse.Exact.document_sandwich_final rl src
+
+/-! ### growth 13 (partial): towards completeness for the exact follow condition `DocFollowX` — a type-system definition
+    whose braces body IS written may be followed by `{` (a shorthand query).  Proved for the four DEFINITIONS with a
+    braces body (enum, input object, object, interface) and for the enum and input object type EXTENSIONS; NOT yet for the
+    object / interface / schema extensions, the dispatch and the document loop — so `document_accept_complete` for `DocFollowX` and `document_accept_iff`
+    are NOT proved. -/
+
+/-- **enum type definition with its values written, acceptance is complete for ANY follow token**: from a state on a lexer
+    queue `c ++ q0 :: rest` where `c` spells `Description? enum Name Directives[Const]? { EnumValueDefinition+ }` within the
+    exact budget and `q0` is any significant token — also `{` —, the run consumed exactly `c` and reported no error. -/
+theorem enum_definition_with_body_accept_complete (n : Nat) (s s' : PState) (c : List Tok) (x : List Ast.Tok) (q0 : Tok)
+    (rest : List Tok) (w : TW s) (hlex : LexQ (Toks s)) (hx : Parse.Exact.LEnumP (s.recLimit - s.recCur) x)
+    (hspell : (sig c).map astOfV = x.map some) (hhead : ∀ hd tl, c = hd :: tl → isIgnoredKind hd.kind = false)
+    (ht : Toks s = c ++ q0 :: rest) (hq : isIgnoredKind q0.kind = false)
+    (h : (enumTypeDefinition n).run s = .ok () s') : Toks s' = q0 :: rest ∧ (Doomed s' ↔ Doomed s) := by
+  obtain ⟨e, t, _⟩ := Parse.Exact.cmpT_enumTypeDefinitionP n s s' () c x q0 rest w hlex h hx ⟨hspell, hhead⟩ ht hq trivial trivial
+  exact ⟨t, e.doom⟩
+
+/-- the same for `input Name Directives[Const]? { InputValueDefinition+ }` -/
+theorem input_definition_with_body_accept_complete (n : Nat) (s s' : PState) (c : List Tok) (x : List Ast.Tok) (q0 : Tok)
+    (rest : List Tok) (w : TW s) (hlex : LexQ (Toks s)) (hx : Parse.Exact.LInputP (s.recLimit - s.recCur) x)
+    (hspell : (sig c).map astOfV = x.map some) (hhead : ∀ hd tl, c = hd :: tl → isIgnoredKind hd.kind = false)
+    (ht : Toks s = c ++ q0 :: rest) (hq : isIgnoredKind q0.kind = false)
+    (h : (inputObjectTypeDefinition n).run s = .ok () s') : Toks s' = q0 :: rest ∧ (Doomed s' ↔ Doomed s) := by
+  obtain ⟨e, t, _⟩ := Parse.Exact.cmpT_inputObjectTypeDefinitionP n s s' () c x q0 rest w hlex h hx ⟨hspell, hhead⟩ ht hq trivial trivial
+  exact ⟨t, e.doom⟩
+
+/-- the same for `type Name ImplementsInterfaces? Directives[Const]? { FieldDefinition+ }`: the follow token is only asked not
+    to be `&` or the Name `implements` (neither can start a definition) — `{` is allowed -/
+theorem object_definition_with_fields_accept_complete (n : Nat) (s s' : PState) (c : List Tok) (x : List Ast.Tok) (q0 : Tok)
+    (rest : List Tok) (w : TW s) (hlex : LexQ (Toks s)) (hx : Parse.Exact.LObjectP "type" (s.recLimit - s.recCur) x)
+    (hspell : (sig c).map astOfV = x.map some) (hhead : ∀ hd tl, c = hd :: tl → isIgnoredKind hd.kind = false)
+    (ht : Toks s = c ++ q0 :: rest) (hq : isIgnoredKind q0.kind = false) (hf : Parse.Exact.FObjP q0)
+    (h : (objectTypeDefinition n).run s = .ok () s') : Toks s' = q0 :: rest ∧ (Doomed s' ↔ Doomed s) := by
+  obtain ⟨e, t, _⟩ := Parse.Exact.cmpT_objectTypeDefinitionP n s s' () c x q0 rest w hlex h hx ⟨hspell, hhead⟩ ht hq hf trivial
+  exact ⟨t, e.doom⟩
+
+/-- the same for `interface …` -/
+theorem interface_definition_with_fields_accept_complete (n : Nat) (s s' : PState) (c : List Tok) (x : List Ast.Tok) (q0 : Tok)
+    (rest : List Tok) (w : TW s) (hlex : LexQ (Toks s)) (hx : Parse.Exact.LObjectP "interface" (s.recLimit - s.recCur) x)
+    (hspell : (sig c).map astOfV = x.map some) (hhead : ∀ hd tl, c = hd :: tl → isIgnoredKind hd.kind = false)
+    (ht : Toks s = c ++ q0 :: rest) (hq : isIgnoredKind q0.kind = false) (hf : Parse.Exact.FObjP q0)
+    (h : (interfaceTypeDefinition n).run s = .ok () s') : Toks s' = q0 :: rest ∧ (Doomed s' ↔ Doomed s) := by
+  obtain ⟨e, t, _⟩ := Parse.Exact.cmpT_interfaceTypeDefinitionP n s s' () c x q0 rest w hlex h hx ⟨hspell, hhead⟩ ht hq hf trivial
+  exact ⟨t, e.doom⟩
+
+/-- the same for `extend enum Name Directives[Const]? { EnumValueDefinition+ }` -/
+theorem enum_extension_with_body_accept_complete (n : Nat) (s s' : PState) (c : List Tok) (x : List Ast.Tok) (q0 : Tok)
+    (rest : List Tok) (w : TW s) (hlex : LexQ (Toks s)) (hx : Parse.Exact.LEnumExtP (s.recLimit - s.recCur) x)
+    (hspell : (sig c).map astOfV = x.map some) (hhead : ∀ hd tl, c = hd :: tl → isIgnoredKind hd.kind = false)
+    (ht : Toks s = c ++ q0 :: rest) (hq : isIgnoredKind q0.kind = false)
+    (h : (enumTypeExtension n).run s = .ok () s') : Toks s' = q0 :: rest ∧ (Doomed s' ↔ Doomed s) := by
+  obtain ⟨e, t, _⟩ := Parse.Exact.cmpT_enumTypeExtensionP n s s' () c x q0 rest w hlex h hx ⟨hspell, hhead⟩ ht hq trivial trivial
+  exact ⟨t, e.doom⟩
+
+/-- the same for `extend input Name Directives[Const]? { InputValueDefinition+ }` -/
+theorem input_extension_with_body_accept_complete (n : Nat) (s s' : PState) (c : List Tok) (x : List Ast.Tok) (q0 : Tok)
+    (rest : List Tok) (w : TW s) (hlex : LexQ (Toks s)) (hx : Parse.Exact.LInputExtP (s.recLimit - s.recCur) x)
+    (hspell : (sig c).map astOfV = x.map some) (hhead : ∀ hd tl, c = hd :: tl → isIgnoredKind hd.kind = false)
+    (ht : Toks s = c ++ q0 :: rest) (hq : isIgnoredKind q0.kind = false)
+    (h : (inputObjectTypeExtension n).run s = .ok () s') : Toks s' = q0 :: rest ∧ (Doomed s' ↔ Doomed s) := by
+  obtain ⟨e, t, _⟩ := Parse.Exact.cmpT_inputObjectTypeExtensionP n s s' () c x q0 rest w hlex h hx ⟨hspell, hhead⟩ ht hq trivial trivial
+  exact ⟨t, e.doom⟩
 
 end Executable
 
